@@ -3,6 +3,7 @@
 From Coq Require Import List NArith Bool String.
 From Verif Require Import Base.Text Gen.GenTokens Gen.GenLegend Model.Lexer Model.SemTokens
   Spec.LspClass Proofs.LexerTile Proofs.GenObligations Proofs.SemTok.
+From Verif Require Model.Lsp Proofs.LspCurrent.
 Import ListNotations.
 Open Scope N_scope.
 
@@ -51,3 +52,14 @@ THEN"%string in
   option_map (decode_rel 0 0) (lsp_semantic_tokens t)
   = Some [(0, 0, 2, 1); (0, 3, 7, 3); (0, 11, 1, 0); (1, 0, 4, 1)].
 Proof. vm_compute. reflexivity. Qed.
+
+(* Which text is highlighted: after ANY history of messages, a request for the semantic tokens of a file document is answered
+   with the tokens of what the history left as that document's contents ([LspCurrent.current]: its last didOpen / non-empty
+   didChange since it was last closed; nothing -- the null answer -- when it is closed or was never opened), under the
+   request's id.  Nothing the server answered or held earlier has a say. *)
+Theorem C15_tokens_of_current_contents :
+  forall (text0 D T : Type) diag no_diag tokens null_tokens (ms : list (Lsp.msg text0)) (d : Lsp.docs text0) id u,
+  Lsp.u_file u = true ->
+  snd (Lsp.step text0 D T diag no_diag tokens null_tokens (fst (Lsp.run text0 D T diag no_diag tokens null_tokens d ms)) (Lsp.SemTokens text0 id u))
+  = [Lsp.Reply D T id (tokens (LspCurrent.current text0 ms (Lsp.u_id u) (Lsp.get text0 d (Lsp.u_id u))))].
+Proof. exact LspCurrent.tokens_of_current. Qed.
